@@ -488,6 +488,31 @@ pub fn name_strategy() -> impl Strategy<Value = String> {
     ]
 }
 
+/// byte-level cases (seed corpus of the libFuzzer target, and replay of inputs it found)
+pub fn bytes_part(eng: &mut Engine) {
+    let items = crate::fuzz::c19_seed_corpus();
+    eng.enum_part(
+        "fuzz_bytes",
+        "the byte-level entry of the libFuzzer target fuzz_c19 (raw bytes into every protobuf decoder; golden-context verification equivalence) run on its seed corpus; replays inputs found by libFuzzer; every seed is non-trivial",
+        false,
+        items,
+        |bytes, ctx| {
+            ctx.evals += 1;
+            ctx.nontrivial(fp(bytes));
+            ctx.sample(&serde_json::json!({"bytes": hex::encode(&bytes[..bytes.len().min(48)]), "len": bytes.len()}));
+            crate::fuzz::c19_bytes_judge(bytes).map_err(|f| (serde_json::json!({"bytes": hex::encode(bytes)}), f))
+        },
+        |v, _| crate::fuzz::c19_bytes_judge(&hex::decode(v["bytes"].as_str().unwrap_or("")).unwrap_or_default()),
+    );
+}
+
+pub fn strategy_n(max_e: usize) -> impl Strategy<Value = Case> {
+    (hist_strategy(1, max_e, 5, 6), proptest::collection::vec(mutation_strategy(), 8..40), proptest::collection::vec(name_strategy(), 0..4)).prop_map(|(hist, muts, names)| Case { hist, muts, names })
+}
+pub fn strategy() -> impl Strategy<Value = Case> {
+    strategy_n(4)
+}
+
 pub fn run(eng: &mut Engine) {
     let thorough = eng.tier == Tier::Thorough;
     eng.assume("history proofs are verified in Default mode (under AllowMissingValues an explicit empty value is a legitimate tombstone and changes the result by design)");
@@ -496,7 +521,9 @@ pub fn run(eng: &mut Engine) {
         "codec",
         "real lookup / history / append-only proofs and all component types harvested from generated histories: value -> message -> bytes -> message -> value must be the identity with equal verification results (lookup path = the wasm client's parse_from_bytes -> try_into -> lookup_verify); encodings mutated at message level through a generic wire-format editor (delete / duplicate any field at any depth, resize digests/labels/vrf proofs, set varints to 257, 2^32.., flip payload bits) and at byte level (truncate, flip, splice, append, arbitrary): never panic, decode idempotent, and if the result still verifies it verifies to the original's result; AuditBlob / AuditBlobName round-trips and arbitrary names; non-trivial = a mutated encoding still decoded; distinct by case",
         eng.tier.pick(8000, 100_000),
-        move || (hist_strategy(1, if thorough { 8 } else { 5 }, 5, 6), proptest::collection::vec(mutation_strategy(), 8..40), proptest::collection::vec(name_strategy(), 0..4)).prop_map(|(hist, muts, names)| Case { hist, muts, names }),
+        move || strategy_n(if thorough { 8 } else { 5 }),
         check,
     );
+    bytes_part(eng);
+    eng.fuzz_part_from_env("fuzz_c19");
 }
